@@ -687,12 +687,38 @@ def pn(spec, n):
 
 
 def py_names(spec, ids):
-    """{python attribute name: property id} the generator is expected to use for one class: PythonIdentifier of the JSON name; names
-    that collide after snake_case fall back to the raw name (C09's business; used here only to find the attributes)"""
+    """({id: raw-fallback name}, {id: default name}, ids whose default names collide) for one class (PythonIdentifier is C09's proved function)"""
     from openapi_python_client.utils import PythonIdentifier
     d = {i: str(PythonIdentifier(pn(spec, i), "field_")) for i in ids}
+    raw = {i: str(PythonIdentifier(pn(spec, i), "field_", skip_snake_case=True)) for i in ids}
     clash = {i for i in ids if sum(1 for j in ids if d[j] == d[i]) > 1}
-    return {(str(PythonIdentifier(pn(spec, i), "field_", skip_snake_case=True)) if i in clash else v): i for i, v in d.items()}
+    return raw, d, clash
+
+
+def map_attrs(spec, ids, attrs):
+    """{attribute: property id}. Which of the colliding properties ends up with the raw-name fallback depends on the processing history
+    of the shared property objects (which member was merged first, which other schema renamed the object before), so an attribute is
+    recognised by its raw name, else by the default name when exactly one unmatched property has it. The document-level requirement is
+    only: one attribute per JSON name, pairwise distinct (checked on the class body), all found here."""
+    raw, d, clash = py_names(spec, ids)
+    res, remaining = {}, list(ids)
+    for a in attrs:
+        c = [i for i in remaining if raw[i] == a]
+        if len(c) == 1:
+            res[a] = c[0]
+            remaining.remove(c[0])
+    for a in attrs:
+        if a not in res:
+            c = [i for i in remaining if d[i] == a]
+            if len(c) == 1:
+                res[a] = c[0]
+                remaining.remove(c[0])
+    return res
+
+
+def clash_ids(spec, model, memo=None):
+    ids = list(spec["leaves"][model]["props"]) if model in spec["leaves"] else list(flatten(spec, model, memo)["decls"])
+    return py_names(spec, ids)[2]
 
 
 def nm(spec, ident):
@@ -998,7 +1024,7 @@ def stage_c_worker(spec):
     obs = {"spec": spec}
     try:
         from openapi_python_client.utils import ClassName
-        tabs, diags, excs, modfiles = [], [], [], {}
+        tabs, diags, excs, modfiles, renamed = [], [], [], {}, []
         cls_of = {i: str(ClassName(nm(spec, i), "")) for i in list(spec["leaves"]) + list(spec["composed"])}
         inv = {c: i for i, c in cls_of.items()}
         docs = [doc_of(spec, False), doc_of(spec, True)]
@@ -1015,11 +1041,16 @@ def stage_c_worker(spec):
             t = {inv.get(k, k): v for k, v in t.items()}
             for cid in list(t):
                 if cid in cls_of:
-                    back = py_names(spec, list(spec["leaves"][cid]["props"]) if cid in spec["leaves"] else list(flatten(spec, cid)["decls"]))
+                    ids = list(spec["leaves"][cid]["props"]) if cid in spec["leaves"] else list(flatten(spec, cid)["decls"])
+                    _, dflt, clash = py_names(spec, ids)
+                    back = map_attrs(spec, ids, list(t[cid]))
+                    for a in t[cid]:
+                        if a in back and back[a] not in clash and a != dflt[back[a]]:
+                            renamed.append([i, cid, back[a], a, dflt[back[a]]])
                     t[cid] = {back.get(a, a): v for a, v in t[cid].items()}
             tabs.append(t)
             modfiles.update({inv.get(k, k): p for k, p in mf.items()})
-        obs.update(tables=tabs, diags=diags, excs=excs, modfiles=modfiles)
+        obs.update(tables=tabs, diags=diags, excs=excs, modfiles=modfiles, renamed=renamed)
         # round trips for the composed classes of order 0 and 1
         memo = {}
         jobs = []
@@ -1178,6 +1209,15 @@ def judge_doc(run, obs, guard_queries):
         run.violation("oracle", {"replay_input": case, "note": "composed classes cannot be imported / executed in a fresh interpreter", "error": obs["run"]})
         return
     memo = {}
+    # ---- a class whose own property names do not collide must keep the default python names, whoever composes it
+    for i, cid, n, actual, default in obs.get("renamed", []):
+        users = [x for x in spec["composed"] if x != cid and n in clash_ids(spec, x, memo)
+                 and {o for _, o in flatten(spec, x, memo)["decls"].get(n, [])} & {o for _, o in flatten(spec, cid, memo)["decls"].get(n, [])}]
+        what = (f"class {nm(spec, cid)} has no colliding names, yet its property {pn(spec, n)!r} is generated as attribute {actual!r} instead of {default!r}: "
+                f"_resolve_naming_conflict renamed the shared property object while processing {nm(spec, users[0]) if users else '?'}")
+        if not (users and run.known_finding("allof_parent_attr_renamed", what)):
+            run.violation("oracle", {"replay_input": case, "note": "a class without colliding property names carries a raw-name fallback attribute", "class": cid, "attr": n,
+                                     "actual": actual, "default": default, "document": i})
     # ---- member classes must not be changed by being composed
     mutated_leaves = set()
     victims = list_mutation_victims(spec)
@@ -1373,7 +1413,7 @@ def run(run, tier, replay=None):
     cbad = run_cases(hdr, cterms, shard=100)
     run.corr = {"cases": len(terms) + len(cterms), "mismatches": len(bad) + len(cbad),
                 "what": "real merge_properties(p1, p2) == Merge.merge (constructor MOk/MErr/MCrash, kind, required, default code+raw value, description/example presence, enum member table / "
-                        "literal set / list item / const / union / model identity) on %d cases; real _process_properties == Merge.collect (names in order, required split, merged properties) on %d allOf lists"
+                        "literal set / list item / const / union / model identity) on %d cases; real _process_properties == Merge.collect and ProcProps.process (names in order, python names incl. the raw-name fallback after merges, required split, merged properties) on %d allOf lists"
                         % (len(terms), len(cterms))}
     for i in bad[:6]:
         c, info = infos[i]
@@ -1382,7 +1422,7 @@ def run(run, tier, replay=None):
     for i in cbad[:4]:
         rin, info = cinfos[i]
         run.violation("correspondence", {"replay_input": rin, "impl": info["impl"], "model": coq_eval(hdr, cevs[i])[-700:] if cevs[i] != "tt" else "a member failed: child must fail",
-                                         "note": "_process_properties no longer collects like Merge.collect (collect_names / collect_required proved)"})
+                                         "note": "_process_properties no longer collects like Merge.collect / ProcProps.process (names, python names after merges, required split, merged properties)"})
     # classify order-dependent merges by the Coq guard g_merge
     if sym_pending:
         gt = []
